@@ -52,6 +52,15 @@ CLAIMED = {
              "are replayed on the code.",
         note=CONC_NOTE, design="7/C06",
         technique="TLA+ spec + TLC model checking; schedule enumeration on the code with TLC trace validation; replay"),
+    "C07": dict(
+        text="Strand.tla models Submit (relaxed load, weak-CAS push loop, IncRef + underlying Submit when Mark was "
+             "replaced), Call (exchange, reversal, bodies, load + CAS back to Mark or resubmission) and Drop over an "
+             "underlying pool with n workers that can be stopped / hard-stopped at any point; TLC checks no overlap, "
+             "execution in push order, Called-xor-Dropped exactly once, Drop only after a refusal, balanced references and "
+             "happens-before between consecutive bodies exhaustively (2 submitters x 1-2 jobs, 1-2 workers, injected "
+             "spurious CAS failures); recorded executions of the real Strand are validated against it.",
+        note=CONC_NOTE + "; the underlying executor is the harness pool", design="7/C07",
+        technique="TLA+ spec + TLC model checking; schedule enumeration on the code with TLC trace validation"),
     "C09": dict(
         text="When.tla models the combinator (per-input SetCallback, inline Consume + DecRef for inputs that are already "
              "complete, the counter, every strategy's atomic protocol and destructor) for All<None|FirstFail> and "
